@@ -329,3 +329,29 @@ func Select(hasDefault bool, cases ...*Case) Sel {
 	Block("select", tryAll)
 	return res
 }
+
+// SendTo fixes the element type from the channel alone, so the value is
+// converted by ordinary assignability (untyped constants, interface values).
+func SendTo[T any](ch chan<- T) func(T) {
+	return func(v T) { Send(ch, v) }
+}
+
+// SOf is S with the element type fixed by the channel (see SendTo).
+func SOf[T any](ch chan<- T) func(T) *Case {
+	return func(v T) *Case { return S(ch, v) }
+}
+
+// RangeChan replaces `range ch`.
+func RangeChan[T any](ch <-chan T) func(yield func(T) bool) {
+	return func(yield func(T) bool) {
+		for {
+			v, ok := Recv2(ch)
+			if !ok {
+				return
+			}
+			if !yield(v) {
+				return
+			}
+		}
+	}
+}
